@@ -98,7 +98,7 @@ func c17SeededList(c *Ctx) []c17Seeded {
 	var out []c17Seeded
 	for i := 0; i < n; i++ {
 		seed := []int64{0, 1, 42, c.Seed}[i%4] + int64(i/4)*1000003
-		out = append(out, c17Seeded{Seed: seed, Cfg: (i * 5) % quickCfgRows, Start: starts[i%len(starts)], Fit: []int{5, 2, 1, 6, 0, 4}[i%6], Epochs: 10})
+		out = append(out, c17Seeded{Seed: seed, Cfg: (i * 5) % quickCfgRows, Start: starts[i%len(starts)], Fit: []int{5, 9, 2, 1, 6, 0, 9, 4}[i%8], Epochs: 10})
 	}
 	return out
 }
